@@ -44,13 +44,13 @@ def run(check, tier, seed, scratch):
     quick = tier == 'quick'
     retrieval.model_runs(check, scratch, 'threads')
     n1, n2 = (150, 150) if quick else (None, 4000)
-    run_trace_leg(check, scratch, 'schedules', chain(retrieval.sched_gen(seed, n1, n2), stress_gen(60 if quick else 1500)), None, module='Trace_Retrieval',
+    run_trace_leg(check, scratch, 'schedules', chain(retrieval.sched_gen(seed, n1, n2, sweep_all=not quick), stress_gen(60 if quick else 1500)), None, module='Trace_Retrieval',
                   describe=retrieval.describe, classify=classify)
     check.cov['exhaustive'] = False
     check.cov['rule'] = ('%d shared-object cases (two retrievals of the same functools.wraps function; retrieval || inspect.signature; wraps chain; __signature__ attribute; two and '
                          'mixed inspect.signature on an as_forged object; emulated forger; modifiers-wrapped function; bound-method access || retrieval; wrappers.decorator; three threads), '
                          '%s one-preemption schedules and %d seeded two-preemption schedules per case at line granularity inside the non-algebra sigtools files, plus randomized stress; '
-                         'distinct by (case, schedule)' % (len(retrieval.SCHED_CASES), 'all' if n1 is None else '%d seeded' % n1, n2))
+                         'and sweeps (one thread parked at 1/4, 1/2, 3/4 of its steps, the other preempted at EVERY step) over %d cases holding and dropping a cached bound wrapper%s; distinct by (case, schedule)' % (len(retrieval.SCHED_CASES), 'all' if n1 is None else '%d seeded' % n1, n2, len(retrieval.SWEEP_CASES), '' if quick else ' and over every case'))
     check.assumptions += ['preemption points are line events in _autoforwards/_specifiers/specifiers/_util/wrappers/modifiers outside the AST walker (which touches thread-local data only)',
                           'stress runs order only call start/end and the hook events']
 
